@@ -414,6 +414,10 @@ def install(E):
     @reg(E, 'from_utf8', 'std::str::from_utf8', 'core::str::from_utf8')
     def from_utf8(E, a, ctx):
         v = deref(E, a[0])
+        if isinstance(v, Buf) and v.base.eq(WIRE):
+            # a stored value that is still a window of the wire (stored by an earlier request of the same pipeline): its content
+            # as a byte-string term (whether it is UTF-8 / numeric is then a free choice of the solver, as for any stored value)
+            v = VTerm(to_val(E, v))
         if isinstance(v, VTerm):
             if E.decide(vutf8(v.t)):
                 return ok(Agg('StrOf', [v]))
